@@ -69,6 +69,10 @@ add("C09","E1 enum","exploration",
     "pow / pow_bounded_exp / Pow / PowBoundedExp / MultiExponentiate(BoundedExp) (arrays and slices) / lincomb_vartime on MontyForm<1,2,4,8,16>, BoxedMontyForm and ConstMontyForm (5 macro moduli): structured moduli x bases {0,1,2,m-1,generic} x exponents {0, all-ones, 2^j, 2^j+-1 for every j, patterns} of equal and different width x EVERY exponent_bits k in 0..=BITS(exponent) for exponents of at most two limbs (window and limb boundaries otherwise), compared with BigUint::modpow(base, e mod 2^k, m); multi-exp vs the product of single powers; lincomb for EVERY term count 1..=40 x moduli with 0..=100 leading zero bits x 6 term patterns; the three implementations must agree.",
     ASSUME + " exponent_bits is exhaustive for exponents of at most two limbs; term counts are exhaustive in 1..=40.", "bounded-exhaustive enumeration on the real code against BigUint::modpow", "DESIGN.md §3.C09")
 
+add("C10","E1 enum","exploration",
+    "inv_odd_mod, inv_mod, InvMod, inv_mod2k(_vartime) for EVERY k in 0..=BITS, precomputed inverters, Int inversions, MontyForm / BoxedMontyForm / ConstMontyForm inv / invert / inverter objects and gcd / gcd_vartime (Uint, Odd<Uint>, Int with all four sign combinations, BoxedUint): EVERY (a, m) with m in 0..=257 and a in 0..2m (the invertibility boundary is enumerated completely there), m = s*2^k for every k with s in {1,3,generic,2^(BITS-k)-1}, products of two primes with chosen shared factors, a >= m, multiples of a factor; Uint<1,2,3,4,6,8,16(,32)>, BoxedUint 1..=33 limbs. some(x) iff gcd(a,m)=1 and x is THE inverse in [0,m); gcd equals the BigUint gcd; ct == vartime.",
+    ASSUME + " Small moduli m <= 257 with all a < 2m are exhaustive; k of inv_mod2k is exhaustive.", "bounded-exhaustive enumeration (truly exhaustive on small moduli) on the real code against the extended-gcd reference", "DESIGN.md §3.C10")
+
 NOT_YET = {}
 ALL = [f"C{i:02d}" for i in range(1,21)]
 import os, sys
